@@ -137,6 +137,7 @@ def Ev.touchesFiles : Ev → Bool
   | .write _ => true
   | .remove _ => true
   | .mkdir => true
+  | .mkdirSub _ => true
   | _ => false
 
 def Ev.isConversion : Ev → Bool
@@ -266,5 +267,22 @@ def specPipeline (p : PipeIn) (o : PrepOut) : Bool :=
       && decide (o.target = .dir ((preparedDir p.prep).withFile p.jsonName (expectedFull p.results)))
       && (o.trace.dropWhile (fun e => e != .openW p.jsonName)
             == [.openW p.jsonName, .write p.jsonName, .annotated, .outputsWritten])
+
+
+/-! ### the whole of `run_antismash` -/
+
+/-- the call as `_run_antismash` finds it: logging has already created / appended to the log file -/
+def afterLogging (p : PrepIn) : PrepIn := { p with target := (setupLogging (logPlace p) p.target).1 }
+
+/-- apart from what setting up the log file does (always the same, accepted or not), and the logged
+    error message on a refusal, the run is the run of `specPipeline` on the directory logging left -/
+def specRun (r : RunIn) (o : PrepOut) : Bool :=
+  let p := (effective r.call).1
+  let s := setupLogging (logPlace p) p.target
+  let rest := o.trace.drop s.2.length
+  let refusedTail := o.err == some inputError
+  let inner := if refusedTail then rest.dropLast else rest
+  (o.trace.take s.2.length == s.2) && (!refusedTail || rest.getLast? == some .logErr) &&
+    specPipeline ⟨afterLogging p, r.results, r.jsonName⟩ ⟨inner, o.err, o.target⟩
 
 end ASV.WriteSafety
